@@ -107,6 +107,14 @@ def shard(a):
     seeds = gen.accepted_seeds(name)
     if seeds:
         picks.append(rnd.choice(seeds))
+    # date-carrying numbers on a leap day: one substituted character (century sign, century digit) then makes the date
+    # impossible, which has to come out as a ValidationError
+    from vf.checks.c12 import DATE_LAYOUT
+    lay = DATE_LAYOUT.get(name)
+    if name == 'se.personnummer':
+        picks += gen.leap_numbers(name, (slice(0, 2), slice(2, 4), slice(4, 6)))[:9]
+    elif lay is not None and lay[0] is not None:
+        picks += gen.leap_numbers(name, (lay[0], lay[2], lay[3]))[:6]
     before = res.evals
     for v in picks:
         if len(v) > 40:
